@@ -1191,7 +1191,11 @@ type inlineRet struct {
 func (g *Gen) inlineCall(x *ssa.Call, f *ssa.Function) {
 	for _, s := range g.inlineStack {
 		if s == f {
-			oos("recursive call to %s which has no contract", shortKey(f.String()))
+			chain := ""
+			for _, s := range g.inlineStack {
+				chain += shortKey(s.String()) + " > "
+			}
+			oos("recursive call to %s which has no contract (via: %s)", shortKey(f.String()), chain)
 		}
 	}
 	if len(g.inlineStack) >= 4 {
@@ -1226,7 +1230,11 @@ func (g *Gen) inlineCall(x *ssa.Call, f *ssa.Function) {
 	}()
 	g.findLoopsNoSpec()
 	if len(g.loops) > 0 {
-		oos("call to %s which has no contract and contains a loop", shortKey(f.String()))
+		chain := ""
+		for _, s := range g.inlineStack {
+			chain += shortKey(s.String()) + " > "
+		}
+		oos("call to %s which has no contract and contains a loop (via: %s)", shortKey(f.String()), chain)
 	}
 	startReach, startSt := g.reach, g.st
 	order := g.topo()
